@@ -35,9 +35,13 @@ var litParsers = map[string]parsley.Parser{
 	"duration": terminal.TimeDuration("d"),
 	"regexp":   terminal.Regexp("r", "ID", "identifier", litRegexp, 1),
 	"regexp2":  terminal.Regexp("r", "KW", "keyword", litRegexp2, 0),
+	"regexp3":  terminal.Regexp("r", "NUM", "number", litRegexp3, 1),
 }
 
 const litRegexp2 = `ab|ba+|c`
+
+// an optional capturing group that does not take part in every match (its value is then the empty string)
+const litRegexp3 = `(-)?[0-9]+`
 
 var litFiles = map[string]*text.File{}
 
@@ -45,10 +49,12 @@ var litFiles = map[string]*text.File{}
 func litObserve(p string, d []byte, off int) J {
 	o := J{"p": p, "d": intsOf(d), "off": off, "k": "err", "e": 0, "nf": false, "val": []int{}, "start": 0, "valueOK": true, "inrange": true, "rx": -1}
 	// delegated oracles, computed from the bytes only (independently of parsley)
-	if (p == "regexp" || p == "regexp2") && off <= len(d) {
+	if (p == "regexp" || p == "regexp2" || p == "regexp3") && off <= len(d) {
 		expr := litRegexp
 		if p == "regexp2" {
 			expr = litRegexp2
+		} else if p == "regexp3" {
+			expr = litRegexp3
 		}
 		if m := regexp.MustCompile("^(?:" + expr + ")").FindIndex(d[off:]); m != nil && off < len(d) {
 			o["rx"] = m[1]
@@ -121,6 +127,9 @@ func litObserve(p string, d []byte, off int) J {
 		case "regexp2":
 			m := regexp.MustCompile("^(?:" + litRegexp2 + ")").Find(d[off:])
 			o["valueOK"] = m != nil && val == string(m)
+		case "regexp3":
+			m := regexp.MustCompile("^(?:" + litRegexp3 + ")").FindSubmatch(d[off:])
+			o["valueOK"] = m != nil && val == string(m[1])
 		case "rune":
 			o["valueOK"] = val == 'é'
 		case "word":
@@ -207,7 +216,7 @@ func literalsMain(mode string, a args) {
 		}
 		r := rand.New(rand.NewSource(int64(a.num("seed", 1))))
 		n := a.num("n", 500)
-		names := []string{"integer", "float", "string", "stringbq", "char", "bool", "nil", "word", "op", "rune", "duration", "regexp", "regexp2"}
+		names := []string{"integer", "float", "string", "stringbq", "char", "bool", "nil", "word", "op", "rune", "duration", "regexp", "regexp2", "regexp3"}
 		near := map[string][]string{
 			"integer":  {"9223372036854775807", "9223372036854775808", "-9223372036854775808", "-9223372036854775809", "0x7fffffffffffffff", "0xffffffffffffffffff", "0777", "08", "0x", "12.", "+", "-0", "123456789012345678901234567890"},
 			"float":    {"1.5", "1.2e3456", "-1.2e-3456", ".5e", "1.e5", "..5", "1.2e+", "123456789.123456789e300", "0.0", "+.0e0"},
@@ -222,6 +231,7 @@ func literalsMain(mode string, a args) {
 			"duration": {"1h30m", "1.5s", "5ms", "5µs", "5μs", "1h30", "10", "-2h", "99999999999999h", "1.5", "1ms2", "3m.5s", "+1ns"},
 			"regexp":   {"abc12", "abc", "12", "a1b", "é1"},
 			"regexp2":  {"ab", "baaa", "c", "xxba", "xab", "a", "xc", "bba"},
+			"regexp3":  {"42", "-42", "-", "4-2", "--1", "0"},
 		}
 		junk := []byte("01789afx.eE+-\"'\\`nuU _\n\t\xc3\xa9\xffhms")
 		for i := 0; i < n; i++ {
